@@ -12,6 +12,12 @@ RULE = ("Literals: TLC enumerates every unit spelling (14 units, every letter-ca
 ASSUMPTIONS = ["sparse files report the intended st_size", "the number of decimals without %.N and the rounding mode are left open"]
 
 
+def mech(tier, seed):
+    # Mech => Prop: the number of bytes parse_filesize (SizeMech: lower-casing, the endings in the order of the code, decimal number,
+    # multiplication, rounding) reads out of the characters of every generated literal is the value of the documented unit table
+    return [dict(module="MC_SizeMech", cfg="MC_SizeMech", workers=2, actions=[], coverage=False)]
+
+
 def generators(tier, seed):
     return [dict(module="MC_C14", cfg="MC_C14_q" if tier == "quick" else "MC_C14_t", workers=4)]
 
